@@ -45,6 +45,7 @@ DTYPE_POOLS = [
 
 class C06(e1.E1Check):
     id = "C06"
+    l3_table = "C06"
     types_quick = [I, F, B, S, BY, var(I), var(F), var(B), var(S), opt(I), opt(F), var(opt(I)), var(opt(F)), opt(var(I)),
                    reg(2, I), reg(3, F), var(var(I)), var(reg(2, I)), reg(2, var(F)), var(opt(var(I))), opt(S), var(opt(S))]
     types_thorough = types_quick + [var(var(F)), var(var(opt(I))), var(var(var(I))), reg(2, reg(2, F)), opt(var(opt(F))), var(BY)]
@@ -102,6 +103,9 @@ class C06(e1.E1Check):
         return refops.sort(T, tvs, args[0], bool(args[1]), bool(args[2]), arg=(opname == "argsort"))
 
     def matches(self, exp, got, opname, args):
+        return refops.matches_sorted(exp, got)
+
+    def l3_matches(self, exp, got, label):
         return refops.matches_sorted(exp, got)
 
     def signature(self, T, tvs, d, names, opname, args, failure):
